@@ -49,11 +49,11 @@ def run_one(m, keep=False):
             for fn in os.listdir(evd):
                 if fn.startswith(prop + ".violation-"):
                     v = json.load(open(os.path.join(evd, fn)))
-                    if v["rule"] == m["rule"] and m["key_contains"] in v["key"]:
+                    if v["rule"] == m["rule"] and m.get("key_contains", "") in v["key"]:
                         hit = True
             if not hit:
                 okall = False
-                msgs.append("%s: violation reported but not rule %s / key ~ %s: %s" % (prop, m["rule"], m["key_contains"], out[-600:]))
+                msgs.append("%s: violation reported but not rule %s / key ~ %s: %s" % (prop, m["rule"], m.get("key_contains", ""), out[-600:]))
         return okall, "; ".join(msgs)
     finally:
         subprocess.run(["git", "-C", REPO, "worktree", "remove", "--force", wt], capture_output=True)
